@@ -1085,6 +1085,15 @@ impl<'a> Runtime<'a> {
         }
     }
 
+    /// A parameter's command is the frame clone made when the argument was read. Growing its
+    /// argument or environment list there inside a loop body would put the new storage above
+    /// the mark the iteration resets to, so the command moves to the persistent arena first.
+    fn rehome_command(command: &mut ProcessCommand<'a>, persistent: &'a Arena) {
+        if !std::ptr::eq(*command.args.allocator(), persistent) {
+            *command = command.clone_into(persistent);
+        }
+    }
+
     fn eval_process_command_call_mut(
         &mut self,
         receiver: ExprRef<'a>,
@@ -1097,7 +1106,9 @@ impl<'a> Runtime<'a> {
             ProcessCommandBuiltin::Arg => {
                 let value = self.eval_expr(args.args[0])?;
                 let arg = GlobalBuiltin::to_string(self.arena, &value);
+                let persistent = self.arena;
                 let command = self.get_mutable_process_command(receiver, span, field)?;
+                Self::rehome_command(command, persistent);
                 command.push_arg(arg);
                 Ok(Value::Null)
             }
@@ -1111,7 +1122,9 @@ impl<'a> Runtime<'a> {
                 let key = self.eval_required_string(args.args[0], span)?;
                 let value = self.eval_expr(args.args[1])?;
                 let value = GlobalBuiltin::to_string(self.arena, &value);
+                let persistent = self.arena;
                 let command = self.get_mutable_process_command(receiver, span, field)?;
+                Self::rehome_command(command, persistent);
                 command.set_env(key, value);
                 Ok(Value::Null)
             }
